@@ -363,6 +363,12 @@ def _fp_check(ctx, which, helper, desc, F, L, x0, atol, rtol, max_iter):
             y = tr(np.array(x, dtype=float))
             x[...] = y
             return x
+    elif conv == "returns_same_buffer":
+        buf = np.empty_like(np.asarray(x0, dtype=float))
+
+        def fun(x):
+            buf[...] = tr(np.array(x, dtype=float))       # preallocated output array, handed out again at every call
+            return buf
     else:
         def fun(x):
             y = tr(np.array(x, dtype=float))
@@ -496,6 +502,13 @@ def _run_fprime(ctx, rng):
         # f_j = sum_i W_ji x_i^3 + (V x)_j^2
         W = rng.normal(size=(k, m))
         V = rng.normal(size=(k, m)) / np.sqrt(r)
+        integer_point = bool(rng.random() < 0.4)
+        if integer_point:
+            # whole-number point handed over as an INTEGER array, integer coefficients: f(x0) itself has an integer dtype
+            x = rng.integers(-3, 4, size=m).astype(float)
+            W = rng.integers(-2, 3, size=(k, m))
+            V = rng.integers(-2, 3, size=(k, m))
+            ctx.cls("fprime:integer_point")
         fv = lambda xf: W @ xf ** 3 + (V @ xf) ** 2
         Jex = 3 * W * (x ** 2)[None, :] + 2 * (V @ x)[:, None] * V
         ax = np.abs(x) + 1e-3
@@ -526,6 +539,8 @@ def _run_fprime(ctx, rng):
         return val.reshape(f_shape)
 
     x_arg = float(x[0]) if x_shape == () else x.reshape(x_shape).copy()
+    if fam == "poly" and integer_point:
+        x_arg = int(x[0]) if x_shape == () else x.reshape(x_shape).astype(np.int64)
     # csr also bounds the rounding of the harness' own exact Jacobian, so it enters every tolerance
     if method == "2-point":
         tol = 10 * (0.5 * h * M2 + 2 * ef[:, None] / h + csr)
@@ -627,7 +642,7 @@ def _run(spec, ctx):
         helper = fixed_point_iteration if kind == "fpi" else fixed_point_iteration_with_momentum
         for _ in range(spec["batch"]):
             desc, F, L, x0 = _fp_problem(rng, momentum=(kind == "fpm"))
-            desc["convention"] = ["pure", "pure", "inplace_returns_same_array", "inplace_returns_new_array"][int(rng.integers(4))]
+            desc["convention"] = ["pure", "pure", "inplace_returns_same_array", "inplace_returns_new_array", "returns_same_buffer"][int(rng.integers(5))]
             atol, rtol = _tol(rng), _tol(rng)
             if rng.random() < 0.3:
                 rtol = 1e-12  # absolute-dominated: uniform scale
